@@ -3,6 +3,7 @@ import CallbagModel.Inv.Combine
 import CallbagModel.Inv.ComposeFull
 import CallbagModel.Inv.ComposeInst
 import CallbagModel.Inv.ConcatFull
+import CallbagModel.Inv.FlatPlugSafe
 import CallbagModel.Inv.FlattenFull
 import CallbagModel.Inv.ForEachFull
 import CallbagModel.Inv.FromIterFull
@@ -96,6 +97,12 @@ theorem C04_closed_pipeline {S1 L1 S2 L2 α β γ : Type} {Msrc : Machine S1 L1 
     (hsrc : UpSide Msrc) (hmid : Pipeable Mmid) :
     ∀ s, SReach (compose (compose Msrc Mmid) (ForEach.machine γ)) s → SafeFor 4 s :=
   fun s hs => (ComposeFull.closed_pipeline_full hsrc hmid s hs).1.safeFor 4
+
+/-- `flatten(map(g)(outer))` as a network (`Ops/FlatPlug.lean`: the outer source and every dynamically created inner source are closed
+head-capable sources), alone or heading a closed pipeline: C04 in full -/
+theorem C04_flatten_network {So Lo Si Li αo αi : Type} {Mo : Machine So Lo αo Int} {Mi : Machine Si Li αi Int} {initOf : Int → Si}
+    (H : FlatPlugSafe.HypF Mo Mi initOf) : ∀ s, SReach (flatPlug Mo Mi initOf) s → SafeFor 4 s :=
+  fun s hs => (FlatPlugSafe.flatPlug_safe H s hs).1.safeFor 4
 
 /-- `pipe!(from_iter(it), stages…)` as a source, against every conformant sink: C04 in full -/
 theorem C04_fromIter_pipeline {ι α α' β S L : Type} (next : ι → Option (α × ι)) (it0 : ι) {Mmid : Machine S L α β}
